@@ -40,7 +40,22 @@ pub fn is_randomized(op: Op) -> bool {
     )
 }
 
+/// One library call as the tree under test answered it in a sequential run (kept when a scenario asks for a trace).
+#[derive(Clone)]
+pub struct Traced {
+    pub lib: &'static str,
+    pub g: Grp,
+    pub op: Op,
+    pub args: Vec<Vec<u8>>,
+    pub out: Out,
+    pub clock: Option<i128>,
+    pub tick: u64,
+    pub route: u8,
+}
+
 pub struct Rec {
+    /// Some = record the calls made on the tree under test (bounded) — the sequential model for concurrent replays
+    pub trace: Option<Vec<Traced>>,
     pub twin: Option<Twin>,
     pub twin_compared: u64,
     /// the property this run decides; oracles of other properties are inert
@@ -71,6 +86,7 @@ pub struct Rec {
 impl Rec {
     pub fn new(property: &str) -> Rec {
         Rec {
+            trace: None,
             twin: None,
             twin_compared: 0,
             property: property.to_string(),
@@ -159,7 +175,13 @@ impl Rec {
         } else {
             0
         };
+        let (clock_at_call, tick_at_call) = (crate::seams::clock_ns(), crate::seams::work_tick_ns());
         let out = crate::exec::call(lib, g, op, args, 0, route);
+        if let Some(t) = self.trace.as_mut() {
+            if t.len() < 6000 && lib.name() != "pinned" && args.iter().map(|a| a.len()).sum::<usize>() <= (1 << 16) {
+                t.push(Traced { lib: lib.name(), g, op, args: args.iter().map(|a| a.to_vec()).collect(), out: out.clone(), clock: clock_at_call, tick: tick_at_call, route });
+            }
+        }
         match &out {
             Out::Ok(v) => {
                 for p in v {
